@@ -193,3 +193,53 @@ Definition x_inspect_stage (st : xbuf) (h : nat) : list (key * N * val) :=
 
 (* the union store's reads on the extended state *)
 Definition xm_get (snap : list kv) (st : xbuf) (k : key) : option val := m_get snap (x_b st) k.
+
+(* ---------- thin outer layer: key length limit, Dirty, SnapshotSeqNo ---------- *)
+(* art.Set rejects a key longer than MaxKeyLen = 65535 before anything else (ErrKeyTooLarge; UpdateFlags drops
+   the error); ART.dirty and ART.SnapshotSeqNo are updated exactly where art.go updates them. They are
+   modelled and compared with the code on every run; no theorem is stated about them. *)
+Record ybuf := mk_ybuf { y_x : xbuf; y_dirty : bool; y_sseq : N }.
+Definition ybuf_empty : ybuf := mk_ybuf xbuf_empty false 0.
+Definition max_key_len : N := 65535.
+
+Definition persistent_nonzero (st : xbuf) (k : key) : bool :=
+  match fl_get (x_kf st) k with Some f => negb (N.land f persistent_mask =? 0) | None => false end.
+
+Definition ystep (st : ybuf) (o : xop) : ybuf * nat :=
+  let x := y_x st in
+  let nostage := match b_stages (x_b x) with [] => true | _ => false end in
+  let too_long (k : key) := max_key_len <? len_n k in
+  (* effect of art.Set that got past the limit checks: dirty / SnapshotSeqNo when no level is open, dirty when
+     the key ends up with a persistent flag *)
+  let after_set (x' : xbuf) (k : key) (r : nat) :=
+    (mk_ybuf x' (y_dirty st || nostage || persistent_nonzero x' k) (if nostage then y_sseq st + 1 else y_sseq st), r) in
+  match o with
+  | XWrite k v _ =>
+      if is_tomb v then (st, 1%nat)
+      else if too_long k then (st, 5%nat)
+      else let '(x', r) := xstep x o in
+           if Nat.eqb r 3 then (st, 3%nat) else after_set x' k r
+  | XDelete k _ =>
+      if too_long k then (st, 5%nat)
+      else let '(x', r) := xstep x o in
+           if Nat.eqb r 3 then (st, 3%nat) else after_set x' k r
+  | XFlags k _ =>
+      if too_long k then (st, 0%nat)
+      else let '(x', r) := xstep x o in after_set x' k r
+  | XRelease h =>
+      let '(x', r) := xstep x o in
+      if handle_live (x_b x) h then
+        if Nat.eqb h 1
+        then (mk_ybuf x' (y_dirty st || negb (Nat.eqb (hd O (b_stages (x_b x))) (length (b_log (x_b x))))) (y_sseq st + 1), r)
+        else (mk_ybuf x' (y_dirty st) (y_sseq st), r)
+      else (st, r)
+  | XCleanup h =>
+      let '(x', r) := xstep x o in
+      if handle_live (x_b x) h then (mk_ybuf x' (y_dirty st) (if Nat.eqb h 1 then y_sseq st + 1 else y_sseq st), r)
+      else (st, r)
+  | XRevert n =>
+      let '(x', r) := xstep x o in
+      let bump := match rev (b_stages (x_b x)) with [] => true | p0 :: _ => Nat.ltb p0 n end in
+      (mk_ybuf x' (y_dirty st) (if bump then y_sseq st + 1 else y_sseq st), r)
+  | _ => let '(x', r) := xstep x o in (mk_ybuf x' (y_dirty st) (y_sseq st), r)
+  end.
